@@ -19,7 +19,7 @@ from hypergraph.runners._shared.input_normalization import (
     ASYNC_RUN_RESERVED_OPTION_NAMES,
     normalize_inputs,
 )
-from hypergraph.runners._shared.types import ErrorHandling, GraphState, RunResult, RunStatus
+from hypergraph.runners._shared.types import ErrorHandling, GraphState, RunResult, RunStatus, _generate_run_id
 from hypergraph.runners._shared.validation import (
     resolve_runtime_selected,
     validate_inputs,
@@ -276,17 +276,22 @@ class SyncRunnerTemplate(BaseRunner, ABC):
         try:
             results = []
             for variation_inputs in input_variations:
-                result = self.run(
-                    graph,
-                    variation_inputs,
-                    select=select,
-                    on_missing=on_missing,
-                    on_internal_override=on_internal_override,
-                    entrypoint=entrypoint,
-                    error_handling="continue",
-                    event_processors=event_processors,
-                    _parent_span_id=map_span_id,
-                )
+                try:
+                    result = self.run(
+                        graph,
+                        variation_inputs,
+                        select=select,
+                        on_missing=on_missing,
+                        on_internal_override=on_internal_override,
+                        entrypoint=entrypoint,
+                        error_handling="continue",
+                        event_processors=event_processors,
+                        _parent_span_id=map_span_id,
+                    )
+                except Exception as e:
+                    # Validation errors (e.g. MissingInputError) raise before run()'s own
+                    # error handling: collect them per item, as the async runner does
+                    result = RunResult(values={}, status=RunStatus.FAILED, run_id=_generate_run_id(), error=e)
                 results.append(result)
                 if error_handling == "raise" and result.status == RunStatus.FAILED:
                     raise result.error  # type: ignore[misc]
